@@ -767,7 +767,32 @@ const Family *find_family(const std::string &name, const std::string &tier)
   else if (name == "retry-long") f = retry_long_family(tier);
   else if (name == "adversary") f = adversary_family(tier);
   else if (name == "cache") f = cache_family(tier);
-  else if (name == "cache-types") {
+  else if (name == "search-reinit") {
+    // the search list and ndots come from the configuration FILE, and reinits happen before the request: one during
+    // which the file cannot be read (must change nothing and must not block later reinits), one after the file changed
+    f      = search_family(tier);
+    f.name = "search-reinit";
+    f.cfgs.clear();
+    for (int ndots : { 1, 3 }) {
+      Cfg c            = cfg("", 1, 1, 0);
+      c.ndots          = ndots;
+      c.domains        = { "d1.test", "d2.test" };
+      c.auto_io        = true;
+      c.sysconf_search = true;
+      char b[64];
+      snprintf(b, sizeof b, "file-ndots%d-doms2", ndots);
+      c.name = b;
+      f.cfgs.push_back(c);
+    }
+    f.req_menu.clear();
+    for (int i = 0; i < (int)f.reqs.size(); i++)
+      if (i / 4 <= 1 && (i % 4 == 0 || i % 4 == 2)) f.req_menu.push_back(i); // names host and a.b through search_dnsrec and getaddrinfo
+    f.replies         = { RK_DATA, RK_NXDOMAIN };
+    f.evmask         |= EVBIT(EV_REINIT);
+    f.max_reinit      = 2;
+    f.reinit_variants = { 1, 2 };
+    f.max_depth       = 5;
+  } else if (name == "cache-types") {
     // key and rcode corner cases on one configuration: two query types the library has no name for (they must not share
     // an entry), and an error rcode beyond the classic 0..5
     f      = cache_family(tier);
